@@ -15,6 +15,9 @@ Graph(j) == [anc |-> [n \in DOMAIN j |-> SeqSetG(j[n].anc)], chld |-> [n \in DOM
 CheckGraph(e) ==
     LET G == Graph(e.nodes) IN
     /\ IF Asymmetric(G) # {} THEN Fail(e, "dependency-not-listed-on-both-ends", Asymmetric(G)) ELSE TRUE
+    \* the same at the level of single value objects: the entries of a per-usage-pattern dictionary share one identifier
+    /\ LET GT == Graph(e.tnodes) IN
+       IF Asymmetric(GT) # {} THEN Fail(e, "dependency-not-listed-on-both-ends(dictionary-entry-level)", Asymmetric(GT)) ELSE TRUE
     /\ IF Dangling(G) # {} THEN Fail(e, "graph-refers-to-a-value-not-held-by-the-model", Dangling(G)) ELSE TRUE
     /\ IF e.detached_refs # <<>> THEN Fail(e, "graph-refers-to-a-detached-or-superseded-value", e.detached_refs) ELSE TRUE
     /\ IF OnCycle(G) # {} THEN Fail(e, "cycle-in-calculation-graph", OnCycle(G)) ELSE TRUE
